@@ -66,9 +66,16 @@ def _worker_init(modname, env=None):
         _MOD.worker_init()
 
 
+class Stale(Exception):
+    """raised by a check when its own driver cannot reach the code (a private name or signature it relied on is gone):
+    the case is skipped and counted, never reported as a violation"""
+
+
 def _safe_run(mod, case):
     try:
         r = mod.run(case)
+    except Stale as e:
+        r = dict(problems=[], evals=0, extra=dict(cases_skipped_driver_stale=1), stale=str(e)[:300])
     except Exception as e:  # a harness or library crash is a problem of that case, never silence
         r = dict(problems=[dict(sig='exception:' + type(e).__name__,
                                 msg=''.join(traceback.format_exception(e))[-2500:])])
@@ -117,6 +124,7 @@ class Agg:
         self.failures = []  # (case, problem)
         self.samples = []
         self.fail_count = 0
+        self.stale = []
         self.sig_count = {}
         self.sets = {}
 
@@ -141,6 +149,8 @@ class Agg:
             n = self.sig_count[p['sig']] = self.sig_count.get(p['sig'], 0) + 1
             if n <= 2 and len(self.sig_count) <= 400:
                 self.failures.append((case, p))
+        if r.get('stale') and len(self.stale) < 5 and r['stale'] not in self.stale:
+            self.stale.append(r['stale'])
         if r.get('sample') is not None and len(self.samples) < 6:
             self.samples.append(r['sample'])
 
@@ -375,6 +385,8 @@ def main(modname, argv=None):
         os.makedirs(os.path.join(ROOT, 'evidence'), exist_ok=True)
         with open(os.path.join(ROOT, 'evidence', pid + '.json'), 'w') as f:
             json.dump(ev, f, indent=1, default=jdefault)
+    for msg in agg.stale:
+        print(f'NOTE {pid}: driver could not reach part of the code, cases skipped: {msg}')
     print(f"{pid} tier={tier} cases={agg.cases} evals={agg.evals} nontrivial={len(agg.nt)} "
           f"states={agg.states} transitions={agg.transitions} traces={agg.traces} "
           f"extra={json.dumps(agg.extra, default=jdefault)} wall={wall:.1f}s rc={rc}")
